@@ -169,7 +169,11 @@ func (t *Collection) ExistAny(key interface{}) bool {
 // Exist returns true if the key exists in the collection
 func (t *Collection) Exist(key []byte) bool {
 	val, _ := t.GetItem(key, false)
-	return val != nil
+	if val == nil {
+		return false
+	}
+	t.store.ItemDecRef(t, val) // Release the reference GetItem() took for us.
+	return true
 }
 
 // SetItem in a collection
@@ -483,6 +487,7 @@ func (t *Collection) VisitItemsRandom(
 	if err != nil {
 		return err
 	}
+	defer t.store.ItemDecRef(t, si) // Release the reference MinItem() took for us.
 	err = t.VisitItemsAscendEx(si.Key, false, v)
 	if err != nil {
 		return err
@@ -555,6 +560,7 @@ func (t *Collection) VisitItemsAscendBlockEx(
 	if err != nil {
 		return err
 	}
+	defer t.store.ItemDecRef(t, si) // Release the reference MinItem() took for us.
 	err = t.VisitItemsAscendEx(si.Key, false, v)
 	if err != nil {
 		return err
@@ -622,6 +628,7 @@ func (t *Collection) Len() (l int64, err error) {
 	if err != nil || si == nil {
 		return
 	}
+	defer t.store.ItemDecRef(t, si) // Release the reference MinItem() took for us.
 	err = t.VisitItemsAscendEx(si.Key, false, visitor)
 	return
 }
